@@ -104,7 +104,7 @@ func Run(seed uint64, controlled bool, main func()) (panicked any) {
 	freeMode.Store(!controlled)
 	lockMu()
 	byGoid.reset()
-	all = nil
+	all = make([]*G, 0, 8192) // no growth on the goroutines of the code under test
 	current = nil
 	viols = nil
 	siteHits = map[string]int{}
